@@ -47,13 +47,15 @@ def audit_files():
 def build_profiles(ctx):
     r = ctx.rng
     chems = ['methane', 'ethane', 'oxygen', 'nitrogen', 'benzene']
-    profs = [('world-ocean', S.world_profile(False)), ('world-ocean+gases', S.world_profile(True)),
-             ('synthetic-3600', S.synthetic_profile(r, z_max=3600.)),
+    world = [('world-ocean', S.world_profile(False)), ('world-ocean+gases', S.world_profile(True))]
+    profs = [('synthetic-3600', S.synthetic_profile(r, z_max=3600.)),
              ('synthetic-3600+chem', S.synthetic_profile(r, z_max=3600., chems=chems))]
     for i in range(ctx.n(1, 6)):
         profs.append(('synthetic-%d' % i, S.synthetic_profile(r)))
         profs.append(('synthetic-%d+chem' % i, S.synthetic_profile(r, chems=r.sample(chems, r.randint(1, 4)))))
-    return profs
+    # about 40 % of the simulations in the world-ocean average profile (half of them with dissolved gases)
+    k = max(1, (2 * len(profs)) // 6)
+    return profs + world * k
 
 
 def case_public(c):
@@ -208,8 +210,17 @@ def check_sim(ctx, idx, c, m, m2, stats):
         viol('first-row-heat', 'initial heat is not T0 * sum(m0) * cp', H0=float(y[0, -1]), expected=T0 * float(np.sum(m0)) * cp)
     # ---- heat reset rows -----------------------------------------------------------------------
     nreset = m._n_reset
-    if k_steps is not None and nreset:
-        first_reset = k_steps + 1 - nreset          # raw row index of the first reset row
+    # heat transfer is off from the first stored step on when the factor is 0 or the particle is released
+    # within 0.5 K of the water (the very first right-hand-side evaluation switches the flag); otherwise
+    # the rows are identified by the number of look-ups `get_values(z, 'temperature')` the loop made
+    all_reset = (c['K_T'] == 0.) or (abs(Ta - T0) < 0.5)
+    if all_reset:
+        ctx.count('heat transfer off from the first step')
+        if k_steps is not None and nreset != k_steps:
+            viol('heat-not-reset', 'heat transfer is off from the first step but the loop did not reset the heat on every step',
+                 resets=nreset, steps=k_steps)
+    if k_steps is not None and (nreset or all_reset):
+        first_reset = 1 if all_reset else k_steps + 1 - nreset          # raw row index of the first reset row
         idxs = [i for i in range(max(first_reset, 1), n) if (masses[i] > 0).all()]
         if idxs:
             Tas = np.array([float(prf.get_values(float(z[i]), ['temperature'])[0]) for i in idxs])
@@ -240,14 +251,16 @@ def run(ctx, lean_ok):
     from tamoc import single_bubble_model, seawater
     r = ctx.rng
     profiles = build_profiles(ctx)
-    nsim = ctx.n(22, 300)
+    nsim = ctx.n(32, 300)
+    ncap = ctx.n(1, 4)             # runs sized to end at the 14-day cap
+    ndropped = 0
     budget = ctx.n(4000, 30000)
     rows_cap = ctx.n(400, 1500)
     stats = {}
     lines, expect = [], []          # driver requests and what to compare them with
     nder = 0
     for idx in range(nsim):
-        c = S.sbm_case(r, profiles, rows_cap=rows_cap)
+        c = S.sbm_cap_case(r, profiles) if idx < ncap else S.sbm_case(r, profiles, rows_cap=rows_cap)
         if c['descr']['kind'] == 'inert' and r.random() < 0.3:
             c['obj'].k_bio = r.uniform(1e-7, 1e-5)
             c['obj'].t_bio = r.choice([0., r.uniform(10., 5000.)])
@@ -258,6 +271,7 @@ def run(ctx, lean_ok):
             m = S.run_sbm(c, budget)
         except S.BudgetExceeded:
             ctx.count('simulation dropped: more than %d right-hand-side evaluations' % budget)
+            ndropped += 1
             continue
         m2 = None
         if m._n_rhs < budget // 2 and (ctx.thorough is False or r.random() < 0.5):
@@ -309,6 +323,8 @@ def run(ctx, lean_ok):
         # post-step fixed point on stored rows with a known flag state
         nreset = m._n_reset
         first_reset = (m._k_steps + 1 - nreset) if m._k_steps is not None else n
+        if c['K_T'] == 0. or abs(Ta0 - (T0 if T0 is not None else Ta0)) < 0.5:
+            first_reset = 1
         rows = [i for i in sorted(set([1, n // 2, n - 1] + [r.randrange(1, n) for _ in range(3)] if n > 1 else [])) if 1 <= i < n]
         for i in rows:
             KT_i = 0. if i >= first_reset else (c['K_T'] if c['K_T'] != 0. else 1.)
@@ -361,6 +377,9 @@ def run(ctx, lean_ok):
                 for j, cj in enumerate(C if obj.issoluble else []):
                     if cj == 0. and ypm[j] > 0.:
                         ctx.violation('rhs-mass-rate-positive-clean-water', 'derivs: component mass rate positive in water free of the compound', dict(pubd, component=j))
+    ctx.oblige('at least 80 %% of the %d generated simulations complete within the budget of %d right-hand-side evaluations' % (nsim, budget),
+               ndropped <= 0.2 * nsim, '%d dropped' % ndropped)
+    ctx.notes.append('the step cap (k > 300000) is not reachable within the time budget of a check: covered by the theorem stop_reason_sbm only')
     ctx.notes.append('observed on the trajectories (VODE not modelled): %r' % stats)
     ctx.notes.append('VODE tolerances rtol=%g atol=%g; depth may rise on the LAST step of a run that ends by stall (us <= 0 is that test) by at most rtol*|z|+atol' % (VODE_RTOL, VODE_ATOL))
     if not lean_ok:
